@@ -583,9 +583,77 @@ def _eliminate_found_flags(f):
     return changed
 
 
+def _unroll_literal_loops(f):
+    """`for v in (a, b): body` with a, b plain names (at most four) and a body that neither rebinds v nor leaves the loop early
+    is the body once per name"""
+    changed = False
+    for block in _blocks(f):
+        i = 0
+        while i < len(block):
+            st = block[i]
+            if isinstance(st, ast.For) and isinstance(st.iter, (ast.Tuple, ast.List)) and 1 <= len(st.iter.elts) <= 4 and not st.orelse \
+                    and isinstance(st.target, ast.Name) and all(isinstance(e, ast.Name) for e in st.iter.elts) \
+                    and not any(isinstance(n, (ast.Break, ast.Continue, ast.Return)) for n in ast.walk(st)) \
+                    and not any(isinstance(n, ast.Name) and n.id == st.target.id and isinstance(n.ctx, (ast.Store, ast.Del)) for b in st.body for n in ast.walk(b)) \
+                    and not any(isinstance(n, ast.Name) and n.id == st.target.id and isinstance(n.ctx, ast.Load)
+                                for later in block[i + 1:] for n in ast.walk(later)):
+                new = []
+                for e in st.iter.elts:
+                    sub = _Subst(st.target.id, e)
+                    new += [sub.visit(_dc(b)) for b in st.body]
+                block[i:i + 1] = new
+                changed = True
+                i += len(new)
+                continue
+            i += 1
+    return changed
+
+
+def _forward_unpacked(f):
+    """`a, b = call(..)` directly followed by `X = a`, `Y = b` (each temporary used exactly there) is `X, Y = call(..)`"""
+    changed = False
+    loads = {}
+    for n in ast.walk(f):
+        if isinstance(n, ast.Name) and isinstance(n.ctx, ast.Load):
+            loads[n.id] = loads.get(n.id, 0) + 1
+    stores_ = {}
+    for n in ast.walk(f):
+        if isinstance(n, ast.Name) and isinstance(n.ctx, (ast.Store, ast.Del)):
+            stores_[n.id] = stores_.get(n.id, 0) + 1
+    for block in _blocks(f):
+        i = 0
+        while i < len(block):
+            st = block[i]
+            if isinstance(st, ast.Assign) and len(st.targets) == 1 and isinstance(st.targets[0], ast.Tuple) and not isinstance(st.value, ast.Tuple) \
+                    and all(isinstance(e, ast.Name) for e in st.targets[0].elts):
+                names = [e.id for e in st.targets[0].elts]
+                k = len(names)
+                nxt = block[i + 1:i + 1 + k]
+                if len(nxt) == k and all(isinstance(x, ast.Assign) and len(x.targets) == 1 and isinstance(x.value, ast.Name) for x in nxt) \
+                        and [x.value.id for x in nxt] == names and all(loads.get(n_, 0) == 1 and stores_.get(n_, 0) == 1 for n_ in names) \
+                        and all(isinstance(x.targets[0], (ast.Attribute, ast.Name, ast.Subscript)) and is_pure(_as_load_copy(x.targets[0])) for x in nxt):
+                    new = ast.Assign(targets=[ast.Tuple(elts=[x.targets[0] for x in nxt], ctx=ast.Store())], value=st.value, lineno=st.lineno)
+                    block[i:i + 1 + k] = [ast.copy_location(new, st)]
+                    changed = True
+            i += 1
+    if changed:
+        ast.fix_missing_locations(f)
+    return changed
+
+
+def _as_load_copy(node):
+    n = _dc(node)
+    for x in ast.walk(n):
+        if hasattr(x, "ctx"):
+            x.ctx = ast.Load()
+    return n
+
+
 def inline_aliases(fn: ast.FunctionDef, keep=()) -> ast.FunctionDef:
     f = _dc(fn)
     _eliminate_found_flags(f)
+    _unroll_literal_loops(f)
+    _forward_unpacked(f)
     _rename_apart(f, set(keep))
     counts = _assign_count(f)
     # a name that is read outside the block where it is bound must stay (checked coarsely: loads before its binding line)
@@ -878,7 +946,7 @@ def inline_helpers(fn: ast.FunctionDef, resolve=None):
     """-> (function with helper calls expanded, names of the helpers expanded).  The input is not modified; when nothing was
     expanded the input itself is returned (so node identity and parent links are those of the parsed module)."""
     local_defs = {s.name: s for s in fn.body if isinstance(s, ast.FunctionDef)}
-    has_candidate = bool(local_defs)
+    has_candidate = bool(local_defs) or any(isinstance(s, ast.Assign) and isinstance(s.value, ast.Lambda) for s in fn.body)
     if not has_candidate and resolve is not None:
         for n in ast.walk(fn):
             if isinstance(n, ast.Call) and resolve(ast.unparse(n.func).replace(" ", "")) is not None:
@@ -888,9 +956,29 @@ def inline_helpers(fn: ast.FunctionDef, resolve=None):
         return fn, []
     f = _dc(fn)
     local_defs = {s.name: s for s in f.body if isinstance(s, ast.FunctionDef)}
+    # a local lambda that computes a *value* (not a predicate, not a key function handed on as an object) is a helper like any
+    # other: `draw = lambda: int_from_hash(prng.nextRandom())` ... `card.sample_num = draw()`.  Predicates stay named: the rules
+    # read them as the repository's own vocabulary (`contest_in_progress`, `filtr`).
+    lambda_defs = {}
+    for st in list(f.body):
+        if isinstance(st, ast.Assign) and len(st.targets) == 1 and isinstance(st.targets[0], ast.Name) and isinstance(st.value, ast.Lambda):
+            nm = st.targets[0].id
+            body = st.value.body
+            predicate = isinstance(body, (ast.Compare, ast.BoolOp)) or (isinstance(body, ast.UnaryOp) and isinstance(body.op, ast.Not)) \
+                or (isinstance(body, ast.Constant) and isinstance(body.value, bool)) \
+                or (isinstance(body, ast.Call) and isinstance(body.func, ast.Attribute) and body.func.attr.startswith(("has_", "is_")))
+            binds = sum(1 for n in ast.walk(f) if isinstance(n, ast.Name) and n.id == nm and isinstance(n.ctx, (ast.Store, ast.Del)))
+            loads = [n for n in ast.walk(f) if isinstance(n, ast.Name) and n.id == nm and isinstance(n.ctx, ast.Load)]
+            called = [c for c in ast.walk(f) if isinstance(c, ast.Call) and isinstance(c.func, ast.Name) and c.func.id == nm]
+            if not predicate and binds == 1 and loads and len(loads) == len(called):
+                fd = ast.FunctionDef(name=nm, args=st.value.args, body=[ast.Return(value=body)], decorator_list=[], returns=None,
+                                     type_comment=None, lineno=st.lineno, col_offset=0)
+                ast.fix_missing_locations(fd)
+                lambda_defs[nm] = (st, fd)
+                local_defs[nm] = fd
     caller_locals = {
         "@stores": {n.id for n in ast.walk(f) if isinstance(n, ast.Name) and isinstance(n.ctx, ast.Store)} | {a.arg for a in f.args.args},
-        "@nested": list(local_defs.values()),
+        "@nested": list(local_defs.values()),  # (lambda helpers included)
     }
     log = []
     for _ in range(4):
@@ -900,9 +988,10 @@ def inline_helpers(fn: ast.FunctionDef, resolve=None):
         return fn, []
     # drop local helper definitions that are no longer referenced
     for name, d in local_defs.items():
-        used = any(isinstance(n, ast.Name) and n.id == name and isinstance(n.ctx, ast.Load) for s in f.body if s is not d for n in ast.walk(s))
-        if not used:
-            f.body.remove(d)
+        holder = lambda_defs[name][0] if name in lambda_defs else d
+        used = any(isinstance(n, ast.Name) and n.id == name and isinstance(n.ctx, ast.Load) for s in f.body if s is not holder for n in ast.walk(s))
+        if not used and holder in f.body:
+            f.body.remove(holder)
     ast.fix_missing_locations(f)
     _renumber(f)
     for parent in ast.walk(f):
@@ -989,7 +1078,7 @@ def _has_continue(node):
 # query-time expansion of temporaries
 
 
-def expand_locals(expr, fn, stop=()):
+def expand_locals(expr, fn, stop=(), allow_lambda=False):
     """`expr` with every local temporary replaced by its definition, recursively: a name qualifies when the function binds it
     exactly once, by a plain `name = value` statement.  Rules that ask "what is stored here, in terms of the inputs?" get the
     same answer whether the code names its intermediate values or not.  (Order of evaluation is not considered: use this for
@@ -1008,7 +1097,7 @@ def expand_locals(expr, fn, stop=()):
                 defs[e.id] = ast.Subscript(value=n.value, slice=ast.Constant(value=k), ctx=ast.Load())
     for a in fn.args.args + fn.args.kwonlyargs:
         counts[a.arg] = counts.get(a.arg, 0) + 1
-    ok = {k: v for k, v in defs.items() if counts.get(k) == 1 and k not in stop and not isinstance(v, ast.Lambda)}
+    ok = {k: v for k, v in defs.items() if counts.get(k) == 1 and k not in stop and (allow_lambda or not isinstance(v, ast.Lambda))}
 
     class X(ast.NodeTransformer):
         def __init__(self):
@@ -1046,3 +1135,272 @@ def record_field_values(scope, field):
                 if k.arg == field:
                     out.append((t, k.value, st))
     return out
+
+
+# ---------------------------------------------------------------------------
+# normal forms applied to every module as it is indexed (before any rule or abstract interpreter sees it)
+
+# callees whose call sites the rules and the abstract interpreter read positionally: keyword arguments are put back in
+# parameter order.  NumPy entries are the documented leading parameters; repository entries are resolved from the parsed tree.
+NUMPY_SIGS = {
+    "insert": ["arr", "obj", "values", "axis"],
+    "searchsorted": ["a", "v", "side", "sorter"],
+    "arange": ["start", "stop", "step", "dtype"],
+    "minimum": ["x1", "x2"], "maximum": ["x1", "x2"],
+    "cumsum": ["a", "axis"], "cumprod": ["a", "axis"],
+    "append": ["arr", "values", "axis"],
+    "tile": ["A", "reps"], "repeat": ["a", "repeats", "axis"],
+    "isclose": ["a", "b", "rtol", "atol"],
+    "sqrt": ["x"], "sum": ["a", "axis"], "mean": ["a", "axis"], "array": ["object", "dtype"],
+    "zeros": ["shape", "dtype"], "ones": ["shape", "dtype"], "quantile": ["a", "q"],
+}
+NUMPY_KEEP_KW = {"side", "dtype", "axis", "rtol", "atol", "sorter", "q"}  # these stay keywords (the rules read them by name)
+REPO_POSITIONAL = {"sjm", "welford_mean_var", "NENAssertion", "NEBAssertion", "buildRemainingTreeAsLists", "from_raire",
+                   "vote_for_cand", "ranking", "find_best_audit", "merge_cvrs", "int_from_hash"}
+REPO_KEEP_KW = {"stream", "log", "use_style", "big", "small", "med"}
+
+
+def _sig_of(fdef):
+    a = fdef.args
+    if a.vararg or a.kwarg or a.posonlyargs:
+        return None
+    names = [x.arg for x in a.args]
+    if names and names[0] in ("self", "cls"):
+        names = names[1:]
+    return names
+
+
+def _kwargs_to_positional(tree, repo_sigs):
+    n = 0
+    for c in ast.walk(tree):
+        if not isinstance(c, ast.Call) or not c.keywords or any(k.arg is None for k in c.keywords) \
+                or any(isinstance(a, ast.Starred) for a in c.args):
+            continue
+        f = c.func
+        short = f.attr if isinstance(f, ast.Attribute) else (f.id if isinstance(f, ast.Name) else None)
+        sig = keep = None
+        if isinstance(f, ast.Attribute) and isinstance(f.value, ast.Name) and f.value.id in ("np", "numpy") and short in NUMPY_SIGS:
+            sig, keep = NUMPY_SIGS[short], NUMPY_KEEP_KW
+        elif short in REPO_POSITIONAL and short in repo_sigs and repo_sigs[short] is not None:
+            sig, keep = repo_sigs[short], REPO_KEEP_KW
+        if sig is None:
+            continue
+        kw = {k.arg: k.value for k in c.keywords}
+        if any(k not in sig for k in kw):
+            continue
+        args = list(c.args)
+        moved = False
+        while len(args) < len(sig) and sig[len(args)] in kw and sig[len(args)] not in keep:
+            args.append(kw.pop(sig[len(args)]))
+            moved = True
+        if moved:
+            c.args = args
+            c.keywords = [k for k in c.keywords if k.arg in kw]
+            n += 1
+    return n
+
+
+def _split_tuple_assignments(tree):
+    """`a, b = e1, e2` -> `a = e1; b = e2` when no name bound on the left is read by a later right-hand side (so the
+    simultaneous and the sequential reading agree)"""
+    n = 0
+    for block in _blocks(tree):
+        i = 0
+        while i < len(block):
+            st = block[i]
+            if isinstance(st, ast.Assign) and len(st.targets) == 1 and isinstance(st.targets[0], ast.Tuple) and isinstance(st.value, ast.Tuple) \
+                    and len(st.targets[0].elts) == len(st.value.elts) and not any(isinstance(e, ast.Starred) for e in st.targets[0].elts + st.value.elts):
+                tg, vs = st.targets[0].elts, st.value.elts
+                ok = all(isinstance(t, (ast.Name, ast.Attribute)) for t in tg)
+                for k, t in enumerate(tg):
+                    bound = {x.id for x in ast.walk(t) if isinstance(x, ast.Name) and isinstance(x.ctx, ast.Store)}
+                    roots = {_root(t)} if isinstance(t, ast.Attribute) else set()
+                    for later in vs[k + 1:]:
+                        if (bound | roots) & _names(later):
+                            ok = False
+                if ok:
+                    new = []
+                    for t, v in zip(tg, vs):
+                        a = ast.Assign(targets=[t], value=v, lineno=st.lineno)
+                        new.append(ast.copy_location(a, st))
+                    block[i:i + 1] = new
+                    n += 1
+                    i += len(new)
+                    continue
+            i += 1
+    return n
+
+
+def _update_to_item_assignment(tree):
+    """`d.update({k: v})` as a statement -> `d[k] = v` (one assignment per item, in order)"""
+    n = 0
+    for block in _blocks(tree):
+        i = 0
+        while i < len(block):
+            st = block[i]
+            if isinstance(st, ast.Expr) and isinstance(st.value, ast.Call) and isinstance(st.value.func, ast.Attribute) and st.value.func.attr == "update" \
+                    and len(st.value.args) == 1 and not st.value.keywords and isinstance(st.value.args[0], ast.Dict) \
+                    and st.value.args[0].keys and all(k is not None for k in st.value.args[0].keys) and is_pure(st.value.func.value):
+                d = st.value.args[0]
+                new = []
+                for k, v in zip(d.keys, d.values):
+                    t = ast.Subscript(value=_dc(st.value.func.value), slice=k, ctx=ast.Store())
+                    new.append(ast.copy_location(ast.Assign(targets=[t], value=v, lineno=st.lineno), st))
+                if len(new) == 1 or all(is_pure(k) and is_pure(v) for k, v in zip(d.keys, d.values)):
+                    block[i:i + 1] = new
+                    n += 1
+                    i += len(new)
+                    continue
+            i += 1
+    return n
+
+
+def _local_defs_to_lambdas(tree):
+    """inside a function, `def name(params): return expr` (nothing else but a docstring) -> `name = lambda params: expr`: the
+    repository writes its local predicates and sort keys as lambdas, and the rules look for them in that form"""
+    n = 0
+    for fn in [x for x in ast.walk(tree) if isinstance(x, (ast.FunctionDef, ast.AsyncFunctionDef))]:
+        for block in _blocks(fn):
+            for i, st in enumerate(block):
+                if isinstance(st, ast.FunctionDef) and st is not fn and not st.decorator_list:
+                    body = _helper_body(st)
+                    if len(body) == 1 and isinstance(body[0], ast.Return) and body[0].value is not None \
+                            and not any(isinstance(x, (ast.Yield, ast.YieldFrom, ast.Await)) for x in ast.walk(body[0])):
+                        args = st.args
+                        for a in args.args + args.kwonlyargs:
+                            a.annotation = None
+                        lam = ast.Lambda(args=args, body=body[0].value)
+                        new = ast.Assign(targets=[ast.Name(id=st.name, ctx=ast.Store())], value=lam, lineno=st.lineno)
+                        block[i] = ast.copy_location(new, st)
+                        n += 1
+    return n
+
+
+class _ChainFlatten(ast.NodeTransformer):
+    """list(chain.from_iterable(X)) / list(itertools.chain.from_iterable(X)) -> [_e for _s in X for _e in _s]"""
+    n = 0
+
+    def visit_Call(self, node):
+        node = self.generic_visit(node)
+        if isinstance(node.func, ast.Name) and node.func.id == "list" and len(node.args) == 1 and not node.keywords:
+            c = node.args[0]
+            if isinstance(c, ast.Call) and len(c.args) == 1 and not c.keywords and ast.unparse(c.func) in ("chain.from_iterable", "itertools.chain.from_iterable"):
+                comp = ast.ListComp(elt=ast.Name(id="_e", ctx=ast.Load()), generators=[
+                    ast.comprehension(target=ast.Name(id="_s", ctx=ast.Store()), iter=c.args[0], ifs=[], is_async=0),
+                    ast.comprehension(target=ast.Name(id="_e", ctx=ast.Store()), iter=ast.Name(id="_s", ctx=ast.Load()), ifs=[], is_async=0)])
+                _ChainFlatten.n += 1
+                return ast.copy_location(comp, node)
+        return node
+
+
+class _StarLists(ast.NodeTransformer):
+    """[a, *b, c] -> [a] + list(b) + [c]   (list displays with unpacking, as concatenations)"""
+    n = 0
+
+    def visit_List(self, node):
+        node = self.generic_visit(node)
+        if not isinstance(node.ctx, ast.Load) or not any(isinstance(e, ast.Starred) for e in node.elts):
+            return node
+        parts, cur = [], []
+        for e in node.elts:
+            if isinstance(e, ast.Starred):
+                if cur:
+                    parts.append(ast.List(elts=cur, ctx=ast.Load()))
+                    cur = []
+                parts.append(ast.Call(func=ast.Name(id="list", ctx=ast.Load()), args=[e.value], keywords=[]))
+            else:
+                cur.append(e)
+        if cur:
+            parts.append(ast.List(elts=cur, ctx=ast.Load()))
+        out = parts[0]
+        for p_ in parts[1:]:
+            out = ast.BinOp(left=out, op=ast.Add(), right=p_)
+        _StarLists.n += 1
+        return ast.copy_location(out, node)
+
+
+def _dict_zip_to_literal(tree):
+    """dict(zip(KEYS, [v1, .., vn])) with KEYS a literal list of n constants (given in place or bound once in the function) is
+    the dict display {k1: v1, ..}"""
+    n = 0
+    for fn in [x for x in ast.walk(tree) if isinstance(x, (ast.FunctionDef, ast.AsyncFunctionDef))]:
+        defs, cnt = {}, {}
+        for x in ast.walk(fn):
+            if isinstance(x, ast.Name) and isinstance(x.ctx, (ast.Store, ast.Del)):
+                cnt[x.id] = cnt.get(x.id, 0) + 1
+            if isinstance(x, ast.Assign) and len(x.targets) == 1 and isinstance(x.targets[0], ast.Name):
+                defs[x.targets[0].id] = x.value
+        for holder in ast.walk(fn):
+            for fld, val in ast.iter_fields(holder):
+                items = val if isinstance(val, list) else [val]
+                for k_, c in enumerate(items):
+                    if not (isinstance(c, ast.Call) and isinstance(c.func, ast.Name) and c.func.id == "dict" and len(c.args) == 1 and not c.keywords):
+                        continue
+                    z = c.args[0]
+                    if not (isinstance(z, ast.Call) and isinstance(z.func, ast.Name) and z.func.id == "zip" and len(z.args) == 2 and not z.keywords):
+                        continue
+                    keys, vals = z.args
+                    if isinstance(keys, ast.Name) and cnt.get(keys.id) == 1 and keys.id in defs:
+                        keys = defs[keys.id]
+                    if isinstance(keys, (ast.List, ast.Tuple)) and isinstance(vals, (ast.List, ast.Tuple)) and len(keys.elts) == len(vals.elts) \
+                            and all(isinstance(e, ast.Constant) for e in keys.elts) and not any(isinstance(e, ast.Starred) for e in vals.elts):
+                        d = ast.copy_location(ast.Dict(keys=[_dc(e) for e in keys.elts], values=list(vals.elts)), c)
+                        if isinstance(val, list):
+                            val[k_] = d
+                        else:
+                            setattr(holder, fld, d)
+                        n += 1
+    return n
+
+
+def normalize_module(tree):
+    """in-place; returns a dict of counters (how many constructs were normalised) for the evidence"""
+    repo_sigs = {}
+    for nd in ast.walk(tree):
+        if isinstance(nd, ast.FunctionDef):
+            repo_sigs.setdefault(nd.name, _sig_of(nd))
+        if isinstance(nd, ast.ClassDef):
+            init = next((m for m in nd.body if isinstance(m, ast.FunctionDef) and m.name == "__init__"), None)
+            if init is not None:
+                repo_sigs[nd.name] = _sig_of(init)
+    out = dict(kwargs_to_positional=_kwargs_to_positional(tree, repo_sigs), tuple_assignments_split=_split_tuple_assignments(tree),
+               update_to_item=_update_to_item_assignment(tree), local_defs_to_lambdas=_local_defs_to_lambdas(tree),
+               dict_zip_to_literal=_dict_zip_to_literal(tree))
+    _StarLists.n = 0
+    _StarLists().visit(tree)
+    out["star_lists"] = _StarLists.n
+    _ChainFlatten.n = 0
+    _ChainFlatten().visit(tree)
+    out["chain_flatten"] = _ChainFlatten.n
+    ast.fix_missing_locations(tree)
+    return out
+
+
+def single_exit(fn, result="_result"):
+    """A function whose returns are all in tail position of an if-chain (`if c: ...; return a` followed by `...; return b`) is
+    rewritten with one exit: every `return e` becomes `_result = e`, the code after an always-returning `if` becomes its `else`,
+    and the function ends in `return _result`.  A function that already has a single return is returned unchanged."""
+    rets = [r for r in ast.walk(fn) if isinstance(r, ast.Return)]
+    nested = [r for d in ast.walk(fn) if isinstance(d, (ast.FunctionDef, ast.Lambda)) and d is not fn for r in ast.walk(d) if isinstance(r, ast.Return)]
+    rets = [r for r in rets if not any(r is n for n in nested)]
+    if len(rets) <= 1:
+        return fn
+    f = _dc(fn)
+    body = list(f.body)
+    doc = []
+    if body and isinstance(body[0], ast.Expr) and isinstance(body[0].value, ast.Constant) and isinstance(body[0].value.value, str):
+        doc, body = body[:1], body[1:]
+    make = lambda v: [ast.Assign(targets=[ast.Name(id=result, ctx=ast.Store())], value=v, lineno=getattr(v, "lineno", f.lineno))]
+    try:
+        new, terminated = _tailify(body, make)
+    except _NoTail:
+        return fn
+    if not terminated:
+        return fn
+    f.body = doc + new + [ast.Return(value=ast.Name(id=result, ctx=ast.Load()))]
+    ast.fix_missing_locations(f)
+    _renumber(f)
+    for parent in ast.walk(f):
+        for child in ast.iter_child_nodes(parent):
+            child._parent = parent  # type: ignore[attr-defined]
+    return f
